@@ -113,6 +113,32 @@ pub fn run(ctx: &Ctx, total: &mut Collector) {
     run_lat!(c, cnt, "Rgb<Srgb,u32>", Rgb<Srgb, u32>, u32, 3);
     run_lat!(c, cnt, "Luma<Srgb,u16>", Luma<Srgb, u16>, u16, 1);
     run_lat!(c, cnt, "Luma<Linear<D65>,u8>", Luma<Linear<palette::white_point::D65>, u8>, u8, 1);
+    // types that clamp with a lower bound only (clamp_min / clamp_min_assign): every integer value is in range
+    run_lat!(c, cnt, "Lms<VonKries,u8>", palette::lms::VonKriesLms<palette::white_point::D65, u8>, u8, 3);
+    run_lat!(c, cnt, "Lms<VonKries,u16>", palette::lms::VonKriesLms<palette::white_point::D65, u16>, u16, 3);
+    run_lat!(c, cnt, "Lms<Bradford,u32>", palette::lms::BradfordLms<palette::white_point::D65, u32>, u32, 3);
+    // HWB family with integer components: in range iff whiteness + blackness <= MAX (sums that overflow
+    // the component type are left out: the documented range is stated for the sum)
+    {
+        let vals: [u8; 6] = [0, 1, 127, 128, 254, 255];
+        for h in [0u8, 1, 128, 255] {
+            for w in vals {
+                for b in vals {
+                    if w as u32 + b as u32 <= 255 {
+                        one::<palette::Hwb<Srgb, u8>, u8, 3>("Hwb<Srgb,u8>", [h, w, b], &vals, &mut c, &mut cnt);
+                    }
+                }
+            }
+        }
+        let vals16: [u16; 6] = [0, 1, 32767, 32768, 65534, 65535];
+        for w in vals16 {
+            for b in vals16 {
+                if w as u32 + b as u32 <= 65535 {
+                    one::<palette::Hwb<Srgb, u16>, u16, 3>("Hwb<Srgb,u16>", [7, w, b], &vals16, &mut c, &mut cnt);
+                }
+            }
+        }
+    }
     // slices
     let mut buf: Vec<Rgb<Srgb, u8>> = (0..=255u8).map(|i| Rgb::new(i, 255 - i, i / 2)).collect();
     let before = buf.clone();
@@ -123,7 +149,16 @@ pub fn run(ctx: &Ctx, total: &mut Collector) {
     if !w || buf != before {
         c.violation("C03/integer/slice/Rgb<Srgb,u8>", 1.0, || json!({"sub": "integer", "type": "[Rgb<Srgb,u8>]", "what": "slice is_within_bounds / clamp_assign", "input": "256 colours", "observed": format!("within {} unchanged {}", w, buf == before), "expected": "true, unchanged"}));
     }
+    let mut lbuf: Vec<palette::lms::VonKriesLms<palette::white_point::D65, u8>> = (0..=255u8).map(|i| palette::lms::VonKriesLms::new(i, 255 - i, i / 2 + 1)).collect();
+    let lbefore = lbuf.clone();
+    let lw = lbuf[..].is_within_bounds();
+    lbuf[..].clamp_assign();
+    cnt[1] += 2;
+    cnt[2] += 2;
+    if !lw || lbuf != lbefore {
+        c.violation("C03/integer/slice/Lms<VonKries,u8>", 1.0, || json!({"sub": "integer", "type": "[Lms<VonKries,u8>]", "what": "slice is_within_bounds / clamp_assign", "input": "256 colours", "observed": format!("within {} unchanged {}", lw, lbuf == lbefore), "expected": "true, unchanged"}));
+    }
     c.add("integer", cnt[0], cnt[1], cnt[2], cnt[0]);
     total.merge(c);
-    total.exhaustive("integer", true, "Rgb<Srgb,u8>: all 2^24 colours (Alpha form: alpha 255 everywhere, 6 alphas on a 16x16 sub-grid); Luma<u8>: all 256; u16/u32 and linear variants: boundary lattice {0,1,mid,mid+1,MAX-1,MAX}^N x 6 alphas; clamp and clamp_assign are the identity and is_within_bounds is true (the documented range of an integer component is its whole type)");
+    total.exhaustive("integer", true, "Rgb<Srgb,u8>: all 2^24 colours (Alpha form: alpha 255 everywhere, 6 alphas on a 16x16 sub-grid); Luma<u8>: all 256; u16/u32 and linear variants, Lms<u8/u16/u32> (lower bound only), Hwb<u8/u16> with whiteness + blackness <= MAX: boundary lattice {0,1,mid,mid+1,MAX-1,MAX}^N x 6 alphas; clamp and clamp_assign are the identity and is_within_bounds is true (the documented range of an integer component is its whole type)");
 }
